@@ -61,6 +61,11 @@ func checkRuntime(c *Ctx, prop string) {
 		// watcher's Done lets the goroutines exit - also for the library's own wrapper around WatchArgs, the Blank
 		c20BlankCancel(c, rng.Fork(), c.scale(25, 400))
 		c20BlankSecondConfig(c, rng.Fork(), c.scale(25, 400))
+		// a watcher installed through a Blank lives and dies with the Config context (not with the SetSource call's):
+		// it must not outlive the shutdown, nor stop before it
+		for i := c.scale(150, 2500); i > 0; i-- {
+			c20Blank(c, rng.Fork())
+		}
 	}
 	if prop == "C09" {
 		rtReEnable(c, c.scale(40, 1000))
@@ -198,7 +203,7 @@ func rtNoWatch(c *Ctx, n int) {
 		p := dials.Params[RC]{SkipInitialVerification: skipInit, DelayInitialVerification: delay, CallGlobalCallbacksAfterVerificationEnabled: suppress}
 		cs := map[string]any{"stream": "no-watching-source", "params": fmt.Sprintf("skipInit=%v delay=%v suppress=%v", skipInit, delay, suppress), "init": init}
 		var impl string
-		d, err := p.Config(context.Background(), &RC{N: &RCN{}}, srcs...)
+		d, err := p.Config(context.Background(), &RC{N: &RCN{}, Ṅ: &RCN{}}, srcs...)
 		before := len(r.verifyCalls)
 		if err != nil {
 			impl = "configErr " + r.errClass(err)
@@ -757,7 +762,7 @@ func rtFreshCompare(r *rtRun) []string {
 	save := rtCur
 	rtCur = nil
 	defer func() { rtCur = save }()
-	fresh, err := dials.Params[RC]{SkipInitialVerification: true}.Config(context.Background(), &RC{N: &RCN{}}, srcs...)
+	fresh, err := dials.Params[RC]{SkipInitialVerification: true}.Config(context.Background(), &RC{N: &RCN{}, Ṅ: &RCN{}}, srcs...)
 	if err != nil {
 		return []string{"fresh Config over the latest values failed: " + err.Error()}
 	}
